@@ -19,11 +19,16 @@ FILES = [
     "qucumber/nn_states/density_matrix.py",
     "qucumber/nn_states/neural_state.py",
     "qucumber/utils/cplx.py",
+    "qucumber/utils/unitaries.py",   # the sign anchor: rotated-basis Born distributions (property C04's functions)
 ]
 REQUIRED_THEOREMS = [
     "C08_represents_pure", "C08_represents_mixed", "C08_sigmaX", "C08_sigmaY", "C08_sigmaZ",
     "C08_neighbour_open", "C08_neighbour_periodic", "C08_pure_states", "C08_mixed_states",
     "C08_pure_trace_eq_expectation", "C08_trace_real", "C08_real", "C08_no_mutation", "C08_importance_weight",
+    # audit round: sign anchor through the library's basis rotations, RBM density-matrix instances, one value per sample
+    "C08_pauli_triple", "C08_basis_rotation_sign", "C08_rotated_Z", "C08_rotated_Z_pure", "C08_rotated_Z_mixed",
+    "C08_rotated_Z_mixed_rbm", "C08_rbm_rho_diag", "C08_mixed_rbm", "C08_rbm_rho_hermitian", "C08_ops_hermitian",
+    "C08_mixed_rbm_trace_real", "C08_one_value_per_sample",
 ]
 THEOREMS = {
     "sigmaX": "C08_sigmaX (+ C08_represents_pure/_mixed, C08_no_mutation: run = map of the per-sample value)",
@@ -34,14 +39,21 @@ THEOREMS = {
     "abs": "C08_real",
     "after": "C08_no_mutation",
     "weight": "C08_importance_weight",
+    "rotated": "C08_rotated_Z (+ C08_rotated_Z_pure / C08_rotated_Z_mixed, C08_basis_rotation_sign, C08_pauli_triple; C04_dX_eigen / C04_dY_eigen)",
+    "shape": "C08_one_value_per_sample",
 }
+# the sign relating SigmaZ on outcomes drawn in the all-P basis (library convention, C04: outcome 0 <-> eigenvalue +1) to SigmaP on
+# computational-basis samples (observables' convention to_pm1: bit 0 -> -1): C08_rotated_Z
+ROTATED_SIGN = -1.0
 RULE = ("case = (state kind pos/cplx/dens, n<=5, h, [a], parameter scale in {0.3,1,2,3}, all weights/biases of both networks = "
         "scale*N(0,1) (all non-zero), batch, memory layout of the batch: contiguous / strided row or column view of a larger buffer / "
         "transposed); batches: the full basis in index order (the exact-average oracle runs on it) and random "
         "batches with repeated rows; every built-in observable with absolute in {False,True}, c = 0..n+1, both boundary conditions; "
         "non-trivial iff n >= 2 and all biases non-zero and (kind == pos or the phase network is non-zero); distinct by hash of the case; "
         "history cases: every observable object created once and applied along a sequence (sample tensor overwritten in place, state "
-        "re-parametrised in place, other batch length, longer / shorter chains, other state class, back to the start)")
+        "re-parametrised in place, other batch length, longer / shorter chains, other state class, back to the start); "
+        "sign anchor on every full-basis case: Born distributions of the outcomes in the all-X and all-Y bases from the library's own "
+        "rotate_psi / rotate_psi_inner_prod (wavefunctions) and rotate_rho_probs / rotate_rho (density matrices) with the default dictionary")
 
 I2 = np.eye(2, dtype=complex)
 PX = np.array([[0, 1], [1, 0]], dtype=complex)
@@ -182,7 +194,8 @@ def one_case(ctx, kind, n, h, a, scale, am, ph, samples, full, layout="contig"):
         ctx.oracle("apply leaves the sample tensor unchanged (bytes)", bool(unchanged), sub, sig=f"{kind}/{key[0]}/no-mutation",
                    theorem=THEOREMS["after"])
         if not isinstance(vals, dict):
-            ctx.oracle("apply returns one float64 per sample", bool(shape_ok), sub, sig=f"{kind}/{key[0]}/shape")
+            ctx.oracle("apply returns one float64 per sample", bool(shape_ok), sub, sig=f"{kind}/{key[0]}/shape",
+                       theorem=THEOREMS["shape"] if key[0] in ("sigmaX", "sigmaY") else None)
     for nm in ("sigmaX", "sigmaY", "sigmaZ"):
         v0, v1 = impl[(nm, False)][0], impl[(nm, True)][0]
         if not isinstance(v0, dict) and not isinstance(v1, dict):
@@ -248,6 +261,50 @@ def one_case(ctx, kind, n, h, a, scale, am, ph, samples, full, layout="contig"):
             for per, mk in ((False, "open"), (True, "periodic")):
                 check(f"NeighbourInteraction(periodic={per},c={c})", impl[("nb", per, c)][0], op_neighbour(n, c, per),
                       f"{kind}/neighbour/{mk}/unbiased", THEOREMS[mk])
+
+        # ---------------- sign anchor (audit C08-1): the three estimators against the library's OWN basis rotations.
+        # p_P = Born distribution of the outcomes when every site is measured in the P basis of the default dictionary (property C04:
+        # rows of U_P are the +1, -1 eigen-bras in that order); to_pm1 reads outcome 0 as -1, hence
+        #     sum_sigma p_P(sigma) SigmaZ.apply(sigma) == ROTATED_SIGN * sum_sigma p(sigma) SigmaP.apply(sigma),  ROTATED_SIGN = -1.
+        # Independent of the Pauli matrices PX/PY/PZ of this file and of the model: relates SigmaX/SigmaY/SigmaZ to unitaries.py only.
+        from qucumber.utils import unitaries as qu
+
+        zvals = impl[("sigmaZ", False)][0]
+        for P, nm in (("X", "sigmaX"), ("Y", "sigmaY")):
+            pvals = impl[(nm, False)][0]
+            if isinstance(zvals, dict) or isinstance(pvals, dict):
+                continue
+            basis = P * n
+            sub = {**case, "observable": nm, "basis": basis}
+            dists, raised = {}, None
+            try:
+                if kind == "dens":
+                    dists["rotate_rho_probs"] = qu.rotate_rho_probs(st, basis, fresh()).detach().numpy() / Z
+                    r = qu.rotate_rho(st, basis, fresh()).detach().numpy()
+                    dists["rotate_rho"] = np.real(np.diag(r[0] + 1j * r[1])) / Z
+                else:
+                    a = qu.rotate_psi(st, basis, fresh()).detach().numpy()
+                    dists["rotate_psi"] = (a[0] ** 2 + a[1] ** 2) / Z
+                    a = qu.rotate_psi_inner_prod(st, basis, fresh()).detach().numpy()
+                    dists["rotate_psi_inner_prod"] = (a[0] ** 2 + a[1] ** 2) / Z
+            except Exception as e:  # noqa: BLE001
+                raised = type(e).__name__
+            if raised is not None:
+                ctx.oracle(f"rotated-basis Born distribution in basis {P}^n must not raise", False, sub, detail={"error": raised},
+                           sig=f"{kind}/{nm}/rotated-basis-sign", theorem=THEOREMS["rotated"])
+                continue
+            rhs = float(np.dot(p, np.asarray(pvals)))
+            if abs(rhs) > 1e-6:
+                ctx.count(f"rotated_sign_nonzero_expectation:{P}")
+            for src, pP in dists.items():
+                lhs = float(np.dot(pP, np.asarray(zvals)))
+                tol = 1e-8 * (1.0 + float(np.max(np.abs(np.asarray(pvals)) * p)) * len(pvals))
+                ok = abs(lhs - ROTATED_SIGN * rhs) <= tol and abs(float(np.sum(pP)) - 1.0) <= 1e-8 and bool(np.all(pP >= -1e-12))
+                ctx.oracle(f"rotated-basis SigmaZ == -Sigma{P}: sum_sigma p_{P}(sigma) SigmaZ.apply(sigma) == s * sum_sigma p(sigma) Sigma{P}.apply(sigma), "
+                           f"s = {ROTATED_SIGN:+.0f} (p_{P} from {src})", bool(ok), {**sub, "source": src},
+                           detail={"rotated_basis_Z_average": lhs, "computational_basis_P_average": rhs, "sign": ROTATED_SIGN,
+                                   "sum_p_rotated": float(np.sum(pP))},
+                           sig=f"{kind}/{nm}/rotated-basis-sign", theorem=THEOREMS["rotated"])
 
 
 def gen_cases(ctx, thorough):
